@@ -235,7 +235,12 @@ func runSched16(rep *core.Report, tier string) map[string]any {
 		{Name: "pack(deref)", Nodes: trees["deref"], Ignore: true, Deref: true},
 		{Name: "pack(links,allow×3)", Nodes: trees["links"], Allow3: true},
 		{Name: "pack(plain+links,allow×3)", Nodes: append(append([]TNode{}, trees["links"]...), TNode{Path: "src/z/l", Kind: "link", Target: "../a"}), Allow3: true},
+		// 150 kB of incompressible data each, with a scheduling point at every call of the output
+		// writer: the other call can run while this one is in the middle of copying its file
+		{Name: "pack(bigA,slow-writer)", Nodes: trees["bigA"], SlowWriter: true},
+		{Name: "pack(bigB,slow-writer)", Nodes: trees["bigB"], SlowWriter: true},
 	}
+	nSmall := len(ops) - 2
 	totalExec, totalPoints, scen, capped := 0, 0, 0, 0
 	labels := map[string]bool{}
 	boundHist := map[int]int{}
@@ -250,11 +255,12 @@ func runSched16(rep *core.Report, tier string) map[string]any {
 			solo[i] = out.Probes[0]
 		})
 		var sets [][]int
-		for a := range ops {
-			for b := a; b < len(ops); b++ {
+		for a := 0; a < nSmall; a++ {
+			for b := a; b < nSmall; b++ {
 				sets = append(sets, []int{a, b})
 			}
 		}
+		sets = append(sets, []int{nSmall, nSmall + 1}) // the two big trees only meet each other
 		if thorough {
 			for a := 0; a < 4; a++ {
 				for b := a; b < 4; b++ {
@@ -266,12 +272,16 @@ func runSched16(rep *core.Report, tier string) map[string]any {
 		}
 		// the same pairs once more with ONE Packer shared by the threads (only steps with equal options)
 		type scenT struct {
-			set   []int
-			share bool
+			set     []int
+			share   bool
+			preFail bool // a Pack whose writer failed mid-body ran earlier in the process
 		}
 		var scens []scenT
 		for _, s := range sets {
-			scens = append(scens, scenT{s, false})
+			scens = append(scens, scenT{s, false, false})
+			if s[0] >= nSmall {
+				scens = append(scens, scenT{s, false, true})
+			}
 		}
 		sameOpt := func(a, b PackStep) bool {
 			return a.Ignore == b.Ignore && a.Deref == b.Deref && a.Allow3 == b.Allow3 && !a.Legacy && !b.Legacy
@@ -284,7 +294,10 @@ func runSched16(rep *core.Report, tier string) map[string]any {
 				}
 			}
 			if ok && len(s) == 2 {
-				scens = append(scens, scenT{s, true})
+				scens = append(scens, scenT{s, true, false})
+				if s[0] >= nSmall {
+					scens = append(scens, scenT{s, true, true})
+				}
 			}
 		}
 		pool := core.NewPool(uid)
@@ -303,7 +316,14 @@ func runSched16(rep *core.Report, tier string) map[string]any {
 				steps = append(steps, ops[o])
 				exp = append(exp, solo[o])
 			}
-			args[i] = map[string]any{"steps": steps, "expected": exp, "bound": -1, "max_exec": maxExec, "uid": uid, "share": scens[i].share}
+			budget := maxExec
+			if scens[i].set[0] >= nSmall && budget < 5000 {
+				budget = 5000 // many writer points per execution: one preemption must be completed
+			}
+			args[i] = map[string]any{"steps": steps, "expected": exp, "bound": -1, "max_exec": budget, "uid": uid, "share": scens[i].share}
+			if scens[i].preFail {
+				args[i]["pre_fail"] = ops[nSmall]
+			}
 			return args[i]
 		}, func(i int, r core.Result) {
 			var names []string
@@ -311,6 +331,9 @@ func runSched16(rep *core.Report, tier string) map[string]any {
 				names = append(names, ops[o].Name)
 			}
 			desc := fmt.Sprintf("uid=%d shared-packer=%v concurrent Packs [%s]", uid, scens[i].share, strings.Join(names, " || "))
+			if scens[i].preFail {
+				desc += " after a Pack in the same process whose writer failed in the middle of a file"
+			}
 			if r.Hung || r.Crashed || r.Panic != "" {
 				rep.Violation("slug.Pack/concurrent/hang-or-crash", desc+" "+firstLines(r.Stderr+r.Panic, 4), "schedpack", args[i])
 				return
